@@ -325,6 +325,16 @@ Proof.
   rewrite Forall_forall. intros x _. apply conv_mirror.
 Qed.
 
+(* corollaries: as many nodes as files and folders (len(tree)); the same (depth, entry) pairs *)
+Corollary load_count s l : length (tree_entries [] (load s l)) = length (dir_entries [] l).
+Proof. apply Permutation_length, load_mirror. Qed.
+
+Definition depth_entry (pe : list text * fse) : nat * fse := (length (fst pe), snd pe).
+
+Corollary load_depths s l :
+  Permutation (map depth_entry (tree_entries [] (load s l))) (map depth_entry (dir_entries [] l)).
+Proof. apply Permutation_map, load_mirror. Qed.
+
 (* sort=False: the pre-order walk of the tree IS the walk of the directory in listing order *)
 Lemma conv_unsorted x : forall pre, tree_entries pre (conv false x) = fs_entries pre x.
 Proof.
